@@ -132,6 +132,9 @@ def run_one(ctl: explorer.Ctl, cfg: Dict[str, Any]) -> Dict[str, Any]:
     writes: List[tuple] = []
     st: Dict[str, Any] = {"answered": False, "t_answer": None}
     client = StdioClient(seams.stdio_params()) if cfg["tracked"] else None
+    if client is not None and cfg.get("preset"):
+        # the tracked client already went through an earlier handshake that settled on this version
+        client.set_protocol_version(cfg["preset"])
 
     def deliver(wire):
         st["t_answer"] = loop.time()
@@ -209,7 +212,7 @@ def run_one(ctl: explorer.Ctl, cfg: Dict[str, Any]) -> Dict[str, Any]:
     def bad(cls, msg, **extra):
         viol.append({"sig": {"class": cls, **extra},
                      "msg": f"list={sup} preferred={pref!r} answer={a} when={when} distractor={cfg['distractor']} "
-                            f"tracked={cfg['tracked']}: {msg} [outcome={okind} {oval!r}]"})
+                            f"tracked={cfg['tracked']} preset={cfg.get('preset')}: {msg} [outcome={okind} {oval!r}]"})
 
     wd = []
     for t, m in writes:
@@ -268,7 +271,7 @@ def run_one(ctl: explorer.Ctl, cfg: Dict[str, Any]) -> Dict[str, Any]:
             bad(cls, "initialization succeeded although the server did not answer with an offered version")
         if notes:
             bad("initialized-sent-on-failure", f"{len(notes)} initialized notifications although initialization failed ({okind})")
-        if client is not None and client.get_batching_info().get("protocol_version") is not None:
+        if client is not None and client.get_batching_info().get("protocol_version") != cfg.get("preset"):
             bad("tracked-client-set-on-failure", f"{client.get_batching_info()}")
         if a["kind"].startswith("version") and okind != "version-mismatch" and not (
                 cfg.get("write") == "unbuffered-stall" and okind == "timeout"):
@@ -304,6 +307,11 @@ def run(tier: str, only=None) -> core.Result:
                     for d in (False, True):
                         for tr in (False, True):
                             cfgs.append({"list": sup, "pref": pref, "answer": ai, "when": when, "distractor": d, "tracked": tr})
+                # a tracked client that is re-initialised: it still carries the version of its previous handshake
+                if pref is None and ANSWERS[ai]["kind"] in ("version", "silence", "error"):
+                    for preset in sorted({sup[-1], "1999-12-31", "2024-11-05"}):
+                        cfgs.append({"list": sup, "pref": pref, "answer": ai, "when": "now", "distractor": False,
+                                     "tracked": True, "preset": preset})
                 # slow peer: unbuffered write stream whose consumer stalls after taking the request
                 if len(sup) == 1 and ANSWERS[ai]["kind"] in ("version", "version-fragment"):
                     for stall in (0.5 * T, 2.5 * T):
